@@ -37,6 +37,8 @@ def handler_flags():
     vl = src("server/swimos_agent/src/lanes/value/mod.rs")
     ml = src("server/swimos_agent/src/lanes/map/mod.rs")
     out = {
+        "valueSync": step_mod(vl, "ValueLaneSync", "ValueLaneSync::step"),
+        "mapSync": step_mod(ml, "MapLaneSync", "MapLaneSync::step"),
         "valueSet": step_mod(vl, "ValueLaneSet", "ValueLaneSet::step"),
         "mapUpdate": step_mod(ml, "MapLaneUpdate", "MapLaneUpdate::step"),
         "mapRemove": step_mod(ml, "MapLaneRemove", "MapLaneRemove::step"),
@@ -46,4 +48,83 @@ def handler_flags():
     body = "".join(f"def {k}Dirty : Bool := {b(d)}\ndef {k}Trigger : Bool := {b(t)}\n" for k, (d, t) in out.items())
     return HEADER + "namespace SwimVerif.Generated\n" + body + "end SwimVerif.Generated\n"
 
-EXTRACTORS = {"HandlerFlags": handler_flags}
+
+def flush_table():
+    """The write flush at the end of every iteration of the agent task's loop (`run_agent`): for each `WriteResult`
+    whether a write is started, the `requires_event` flag given to `do_write` (whose completion re-dispatches the
+    item's lifecycle event when it is true) and whether the item stays in `dirty_items`; the `WriteResult`s that the
+    `write_to_buffer` of value / map / command lanes can return; the item kinds that can return `RequiresEvent`."""
+    am = src("server/swimos_agent/src/agent_model/mod.rs")
+    variants = one(r"pub enum WriteResult \{(.*?)\n\}", am, "enum WriteResult", re.S)
+    names = re.findall(r"^\s*(\w+),\s*$", variants, re.M)
+    if sorted(names) != ["DataStillAvailable", "Done", "NoData", "RequiresEvent"]:
+        raise ExtractError(f"enum WriteResult: unexpected variants {names}")
+    blk = one(r"// Attempt to write to the outgoing buffers for any items with data\.\s*dirty_items\.retain\(\|id\| \{(.*?)\n            \}\);",
+              am, "write flush (dirty_items.retain)", re.S)
+    one(r"if let Some\(mut tx\) = item_writers\.remove\(id\) \{", blk, "flush: writer taken from item_writers")
+    one(r"match item_model\.write_event\(name\.as_str\(\), &mut tx\.buffer\) \{", blk, "flush: match on write_event")
+    arms = re.findall(r"Some\(WriteResult::(\w+)\) => \{\s*pending_writes\.push\(do_write\(tx, (true|false)\)\);\s*(true|false)\s*\}",
+                      blk)
+    table = {n: (True, ev == "true", keep == "true") for n, ev, keep in arms}
+    if len(arms) != len(table):
+        raise ExtractError("flush: duplicate match arm")
+    dflt = re.findall(r"_ => \{\s*(?://[^\n]*\s*)*item_writers\.insert\(\*id, tx\);\s*(true|false)\s*\}", blk)
+    if len(dflt) != 1:
+        raise ExtractError(f"flush: expected one default arm returning the writer, found {len(dflt)}")
+    for n in names:
+        table.setdefault(n, (False, False, dflt[0] == "true"))
+    # every `=>` of the match is accounted for (an arm of another shape would be missed otherwise)
+    if blk.count("=>") != len(arms) + 1:
+        raise ExtractError(f"flush: {blk.count('=>')} match arms, {len(arms) + 1} understood")
+    away = one(r"\} else \{\s*(true|false)\s*\}\s*$", blk, "flush: writer away", re.S)
+    one(r"async fn do_write\(\s*writer: ItemWriter,\s*requires_event: bool,\s*\) -> \(ItemWriter, Result<bool, std::io::Error>\) \{"
+        r"\s*let \(writer, result\) = writer\.write\(\)\.await;\s*\(writer, result\.map\(move \|_\| requires_event\)\)\s*\}",
+        am, "do_write")
+    one(r"TaskEvent::WriteComplete \{ writer, result \} => \{\s*match result \{\s*Ok\(true\) => \{\s*(?://[^\n]*\s*)*"
+        r"let lane = &lifecycle_item_ids\[&writer\.lane_id\(\)\];\s*if let Some\(handler\) = lifecycle\.item_event\(&item_model, lane\.as_str\(\)\)"
+        r"\s*\{\s*exec_handler!\(handler\);\s*\}\s*\}", am, "WriteComplete arm")
+    # lifecycle_item_ids: id -> lifecycle (field) name; external_item_ids: external name -> id
+    one(r"let mut lifecycle_item_ids: HashMap<u64, Text> = item_specs\s*\.values\(\)\s*"
+        r"\.map\(\|spec\| \(spec\.id, Text::new\(spec\.lifecycle_name\)\)\)\s*\.collect\(\);", am, "lifecycle_item_ids")
+    one(r"let mut external_item_ids: HashMap<Text, u64> = item_specs\s*\.iter\(\)\s*"
+        r"\.map\(\|\(name, spec\)\| \(Text::new\(name\), spec\.id\)\)\s*\.collect\(\);", am, "external_item_ids")
+
+    def results(rel, ty):
+        text = src(rel)
+        m = re.findall(r"LaneItem for " + ty + r"<[^{]*\{\s*fn write_to_buffer\(&self, buffer: &mut BytesMut\) -> WriteResult \{(.*?)\n    \}\n\}",
+                       text, re.S)
+        if len(m) != 1:
+            raise ExtractError(f"{ty}::write_to_buffer: expected one impl, found {len(m)}")
+        return sorted(set(re.findall(r"WriteResult::(\w+)", m[0])))
+
+    res = {
+        "value": results("server/swimos_agent/src/lanes/value/mod.rs", "ValueLane"),
+        "map": results("server/swimos_agent/src/lanes/map/mod.rs", "MapLane"),
+        "command": results("server/swimos_agent/src/lanes/command/mod.rs", "CommandLane"),
+        "demandMap": results("server/swimos_agent/src/lanes/demand_map/mod.rs", "DemandMapLane"),
+    }
+    import glob, os
+    from extract import REPO
+    base = os.path.join(REPO, "server/swimos_agent/src")
+    users = []
+    for p in sorted(glob.glob(os.path.join(base, "**", "*.rs"), recursive=True)):
+        rel = os.path.relpath(p, base)
+        if "/tests" in "/" + rel or rel.endswith("tests.rs") or rel == "agent_model/mod.rs":
+            continue
+        if "WriteResult::RequiresEvent" in open(p, encoding="utf-8").read():
+            users.append(rel)
+    b = lambda x: "true" if x else "false"
+    lst = lambda xs: "[" + ", ".join('"%s"' % x for x in xs) + "]"
+    body = ""
+    for n in ["NoData", "Done", "DataStillAvailable", "RequiresEvent"]:
+        push, ev, keep = table[n]
+        k = n[0].lower() + n[1:]
+        body += f"def flush{n}Push : Bool := {b(push)}\ndef flush{n}Event : Bool := {b(ev)}\ndef flush{n}Retain : Bool := {b(keep)}\n"
+    body += f"def flushWriterAwayRetain : Bool := {b(away == 'true')}\n"
+    for k, v in res.items():
+        body += f"def {k}LaneWriteResults : List String := {lst(v)}\n"
+    body += f"def requiresEventSources : List String := {lst(users)}\n"
+    return HEADER + "namespace SwimVerif.Generated\n" + body + "end SwimVerif.Generated\n"
+
+
+EXTRACTORS = {"HandlerFlags": handler_flags, "FlushTable": flush_table}
